@@ -159,13 +159,23 @@ where
 
     let content = match (expected_content_type, body_content_type) {
         (Json, Json) => {
-            let jd = &mut serde_json::Deserializer::from_slice(&body);
-            serde_path_to_error::deserialize(jd).map_err(|e| {
+            let mut jd = serde_json::Deserializer::from_slice(&body);
+            let content =
+                serde_path_to_error::deserialize(&mut jd).map_err(|e| {
+                    HttpError::for_bad_request(
+                        None,
+                        format!("unable to parse JSON body: {}", e),
+                    )
+                })?;
+            // The body must be exactly one JSON value: reject trailing
+            // content (other than whitespace) after it.
+            jd.end().map_err(|e| {
                 HttpError::for_bad_request(
                     None,
                     format!("unable to parse JSON body: {}", e),
                 )
-            })?
+            })?;
+            content
         }
         (UrlEncoded, UrlEncoded) => {
             let ud = serde_urlencoded::Deserializer::new(
